@@ -236,7 +236,7 @@ def modelled_stream(ctx, replay_lines=None):
         rows, ok = ctx.run_gen(binary, ['-replay', tmp], timeout=600)
         os.remove(tmp)
     else:
-        rows, ok = ctx.run_gen(binary, ['-seed', str(ctx.seed), '-n', str(MODELLED_N[ctx.tier]), '-tier', ctx.tier], timeout=1200)
+        rows, ok = ctx.run_gen(binary, ['-seed', str(ctx.seed), '-n', str(MODELLED_N[ctx.tier]), '-tier', 'quick'], timeout=1200)
         rows = [(c, r) for c, r in rows if re.search(r'(^| )cls=(%s)/bad' % '|'.join(LINE_FORMATS), r)]
     if not ok:
         ctx.violation('c03gen failed: ' + '; '.join(ctx.notes[-1:]), ['# see notes'], found_input=False, name='gencrash-c03gen')
@@ -256,9 +256,12 @@ def modelled_stream(ctx, replay_lines=None):
             print('replay (modelled parser): %s\timpl %s\tmodel %s' % (case[:200], impl[:200], mod[:200]))
         if len([x for x in ctx.samples if x.get('origin') == 'modelled']) < 3:
             ctx.samples.append({'case': case[:300], 'impl': impl[:200], 'model': mod[:200], 'origin': 'modelled'})
-        if pi == 'panic':
+        if pi in ('panic', 'hang', 'oom'):
             good = False
-            ctx.violation('%s: Extract PANICKED on malformed bytes (the Lean model of this parser is total and answers %s)' % (fmt, pm), [case + '\t' + impl + '\t' + mod])
+            if sum(1 for v in ctx.violations if v[2]) < 6:
+                what = {'panic': 'PANICKED', 'hang': 'did NOT RETURN within 5 s (hang)', 'oom': 'allocated more than 1 GiB (unbounded memory)'}[pi]
+                ctx.violation('%s: Extract %s on malformed bytes; the Lean model of this parser terminates (fuel-adequacy theorem) and answers %s' % (fmt, what, pm[:80]),
+                              [case + '\t' + impl + '\t' + mod], name='modelled-%s-%s' % (fmt, pi))
         elif pi != pm:
             good = False
             ctx.mismatches.append(case)
